@@ -208,6 +208,50 @@ theorem wrr_exact (entries : List (String × Int)) (hnd : (entries.map (·.1)).N
   rw [wrr_window s hws hr hp e.1, hring]
   exact wrr_ring_proportional entries hnd e he hpos
 
+theorem next_ne_nil (ws : List W) (T : Int) (h : ws ≠ []) : (next ws T).1 ≠ [] := by
+  match ws, h with
+  | [w], _ => simp [next]
+  | w1 :: w2 :: rest, _ =>
+    obtain ⟨f, hf, _, hlen, _⟩ := next_step (w1 :: w2 :: rest) T (by simp)
+    intro hnil
+    rw [hnil] at hlen
+    simp at hlen
+
+theorem buildRingAux_ne_nil (ws : List W) (T : Int) (acc : List String) (h : ws ≠ []) :
+    ∀ k, (buildRingAux k ws T acc).1 ≠ [] := by
+  intro k
+  induction k generalizing ws acc with
+  | zero => simpa [buildRingAux] using h
+  | succ k ih =>
+    simp only [buildRingAux]
+    exact ih _ _ (next_ne_nil ws T h)
+
+/-- **a weight changed by an update is honoured from the next selection on**: whatever the selector
+    was before (`old`: any ring, any position, any weights), after `UpdateServer entries` the very next
+    window of sum-of-weights selections picks each eligible server of the NEW set exactly as often as
+    its NEW weight says -/
+theorem wrr_update_honoured (old : WRR) (entries : List (String × Int)) (hnd : (entries.map (·.1)).Nodup)
+    (e0 : String × Int) (he0 : e0 ∈ entries) (h0 : 0 < e0.2) :
+    ∀ e ∈ entries, 0 < e.2 →
+      ((((wrrRun (old.update entries).ring.length (old.update entries)).count (some e.1) : Nat)) : Int) = e.2 := by
+  have hcount := wrr_ring_proportional entries hnd e0 he0 h0
+  have hr : 0 < (WRR.new entries).ring.length := by
+    have hpos : 0 < (WRR.new entries).ring.count e0.1 := by omega
+    exact List.length_pos_of_mem (List.count_pos_iff.mp hpos)
+  have hws : (WRR.new entries).ws.isEmpty = false := by
+    have hmem : (⟨e0.1, e0.2, 0⟩ : W) ∈ (entries.filter (fun e => e.2 > 0)).map (fun e => (⟨e.1, e.2, 0⟩ : W)) := by
+      simp only [List.mem_map, List.mem_filter]
+      exact ⟨e0, ⟨he0, by simpa using h0⟩, rfl⟩
+    have hne := List.ne_nil_of_mem hmem
+    simp only [WRR.new]
+    generalize (entries.filter (fun e => e.2 > 0)).map (fun e => (⟨e.1, e.2, 0⟩ : W)) = ws0 at hne ⊢
+    have := buildRingAux_ne_nil ws0 (total ws0) [] hne (total ws0).toNat
+    cases hq : (buildRingAux (total ws0).toNat ws0 (total ws0) []).1 with
+    | nil => exact absurd hq this
+    | cons x xs => simp [hq]
+  have hp : (WRR.new entries).pos < (WRR.new entries).ring.length := by simpa [WRR.new] using hr
+  exact wrr_exact entries hnd (old.update entries) rfl hws hr hp
+
 /-- equal weights behave as plain round-robin: the ring is `w` repetitions of one pass over
     the servers in slice order (complete evaluation n ≤ 4, w ≤ 3; labelled as a finite check) -/
 def equalOk (n w : Nat) : Bool :=
